@@ -229,6 +229,7 @@ fn run_read(ctx: &mut Ctx, i: u64) {
 }
 
 pub fn run(ctx: &mut Ctx) {
+    ctx.sig_norm = Some(vcore::props::c01::norm_sig);
     // the vcore part (pipelines over the registry) and the reader part share the deadline:
     // interleave them in slices so that a deadline cuts both proportionally
     let total_read = ctx.tier.pick(12, 4_000, 120_000);
